@@ -231,19 +231,3 @@ Qed.
 Theorem symbolic_agrees : forall p e v d, sym p e = Ok v -> den p (qenv_of e) = Some d -> time_of v == d.
 Proof. exact Sp_all. Qed.
 
-(* ------------------------------------------------------------------------------------------------------------ *)
-(* all four views, every template kind, floats read as their shortest decimal, under the den-guard *)
-Definition guard_den (p : pt) (e : env) : bool := match den p (qenv_of e) with Some _ => true | None => false end.
-
-Theorem agree_den p e d v o :
-  g_view p e = true -> den p (qenv_of e) = Some d -> create_program real p e = Ok o -> sym p (decimalize e) = Ok v ->
-  time_of v == d /\
-  match o with
-  | None => d == 0
-  | Some prog => loop_duration prog == d /\ (exists q, wf_duration prog = Some q /\ q == d) /\ sum_pieces 1 prog == d
-  end.
-Proof.
-  intros Hg Hd Hc Hv. split.
-  - eapply Sp_all; [exact Hv | rewrite qenv_decimalize; exact Hd].
-  - eapply program_views_agree; eassumption.
-Qed.
